@@ -31,7 +31,7 @@ Lemma C05_fetchall_l :
 Proof.
   intros H comb fixed fuel served dg sz buf v E.
   destruct (read_all_sound H comb fixed fuel _ dg sz buf v E) as (A & _ & C).
-  specialize (C eq_refl). simpl in C. rewrite app_nil_r in C. subst buf. split; [reflexivity|exact A].
+  specialize (C eq_refl eq_refl). simpl in C. rewrite app_nil_r in C. subst buf. split; [reflexivity|exact A].
 Qed.
 
 Lemma C05_trailing_short_malformed_rejected_l :
@@ -39,7 +39,7 @@ Lemma C05_trailing_short_malformed_rejected_l :
     (valid_digest dg = false \/ (sz < 0)%Z \/
      (Z.of_nat (length (stream (b_evs src))) < sz)%Z \/
      dg <> digest_of H (alg_of dg) (firstn (Z.to_nat sz) (stream (b_evs src))) \/
-     (b_lim src = None /\ (sz < Z.of_nat (length (stream (b_evs src))))%Z)) ->
+     (b_lim src = None /\ neof (b_evs src) = 0%nat /\ (sz < Z.of_nat (length (stream (b_evs src))))%Z)) ->
     (forall fixed buf v, read_all H comb fixed fuel src dg sz <> ((None, buf), v)) /\
     (forall out v, copy_buffer H comb true fuel src bufsz dg sz <> ((None, out), v)).
 Proof.
@@ -61,7 +61,7 @@ Lemma C05_push_file_partial_l :
                                    file_fetch s' name' d' = file_fetch s name' d').
 Proof.
   intros H comb fuel s name path d evs e s' R Pf E.
-  exact (proj2 (file_push_spec H comb fuel s name path d evs e s' (file_reach_ok H s R) Pf E)).
+  exact (proj2 (file_push_spec H comb fuel s name path d evs e s' (file_reach_ok H s R) (fun _ => Pf) E)).
 Qed.
 
 Lemma C05_push_bad_rejected_l :
@@ -128,7 +128,7 @@ Lemma C05_concurrent_same_digest_l :
     (forall i n st' t w, cstep H st i n = Some st' -> nth_error (c_thr st) i = Some t ->
                          t_pc t = PIngest w [] None ->
        exists w', oci_get (c_blobs st') (d_dg (t_d t)) = Some w' /\
-                  matches_desc H (d_dg (t_d t)) (d_sz (t_d t)) w' /\ stream (t_evs t) = w').
+                  matches_desc H (d_dg (t_d t)) (d_sz (t_d t)) w' /\ (neof (t_evs t) = 0%nat -> stream (t_evs t) = w')).
 Proof.
   intros H blobs ts sched st R F E.
   pose proof (crun_inv H sched _ _ (cinv_start H blobs ts (oci_reach_ok H blobs R) F) E) as Iv.
@@ -158,4 +158,130 @@ Lemma C05_push_sound_refuted_negative_size_l :
 Proof.
   intros H comb mt V. exists (mkDesc mt (empty_digest H) (-1)). split; [reflexivity|].
   exact (oci_push_prefix_negative_size H comb mt V).
+Qed.
+
+(* ------------------------------------------------------------------ FetchAll on the stores *)
+Lemma stream_serve_script c : stream (serve_script c) = c.
+Proof. destruct c; simpl; auto. rewrite app_nil_r. reflexivity. Qed.
+
+Lemma fetch_all_sound (H : str -> str -> str) fetched d b :
+  fetch_all H fetched d = (None, b) ->
+  fetched = Some b /\ matches_desc H (d_dg d) (d_sz d) b.
+Proof.
+  unfold fetch_all. destruct fetched as [c|]; [|discriminate].
+  destruct (read_all H false true (S (S (S (ev_weight (serve_script c))))) (mkBase (serve_script c) None) (d_dg d) (d_sz d))
+    as [[e buf] v] eqn:Er.
+  simpl. intro X; inversion X; subst.
+  apply read_all_sound in Er as (A & _ & C). specialize (C eq_refl).
+  assert (Z0 : neof (serve_script c) = 0%nat) by (destruct c; reflexivity). specialize (C Z0). simpl in C.
+  rewrite stream_serve_script in C. subst. auto.
+Qed.
+
+(* FetchAll on every store returns data only when the store serves exactly the bytes the
+   descriptor names -- whatever the store holds (no reachability needed: FetchAll
+   verifies again) *)
+Lemma fetch_all_stores (H : str -> str -> str) :
+  (forall m d b, mem_fetch_all H m d = (None, b) -> mem_get m d = Some b /\ matches_desc H (d_dg d) (d_sz d) b) /\
+  (forall s d b, oci_fetch_all H s d = (None, b) -> oci_get s (d_dg d) = Some b /\ matches_desc H (d_dg d) (d_sz d) b) /\
+  (forall s name d b, file_fetch_all H s name d = (None, b) ->
+                      file_fetch s name d = Some b /\ matches_desc H (d_dg d) (d_sz d) b).
+Proof.
+  split; [|split].
+  - intros m d b E. exact (fetch_all_sound H _ d b E).
+  - intros s d b. unfold oci_fetch_all. destruct (negb (valid_digest (d_dg d))); [discriminate|].
+    intro E. exact (fetch_all_sound H _ d b E).
+  - intros s name d b E. exact (fetch_all_sound H _ d b E).
+Qed.
+
+Lemma proxy_histories (H : str -> str -> str) :
+    (forall m, proxy_reach H m ->
+       forall d bs, mem_get m d = Some bs -> matches_desc H (d_dg d) (d_sz d) bs) /\
+    (forall limit stop m d comb evs ks rs ce m' bs,
+       proxy_reach H m -> mem_get m d = Some bs ->
+       proxy_fetch H limit stop m d comb evs ks = ((rs, ce), m') ->
+       matches_desc H (d_dg d) (d_sz d) bs /\ m' = m /\ ce = None /\
+       exists rest, bs = concat (map fst rs) ++ rest).
+Proof.
+  split.
+  - intros m R. exact (proxy_reach_ok H m R).
+  - intros limit stop m d comb evs ks rs ce m' bs R G E.
+    exact (proxy_history_hit H limit stop m d comb evs ks rs ce m' bs R G E).
+Qed.
+
+Lemma explorers_complete (H : str -> str -> str) :
+  (forall big sched fuel st st',
+     crun H st (map (fun i => (i, big)) sched) = Some st' -> (forall i, cstep H st' i big = None) ->
+     (length sched < fuel)%nat -> In st' (explore H fuel big st)) /\
+  (forall sched fuel st st',
+     mrun H st sched = Some st' -> (forall i, mstep H st' i = None) ->
+     (length sched < fuel)%nat -> In st' (explore_m H fuel st)) /\
+  (forall sched fuel st st',
+     frun H st sched = Some st' -> (forall i, fstep H st' i = None) ->
+     (length sched < fuel)%nat -> In st' (explore_f H fuel st)) /\
+  (forall st, Forall (fun t => exists r, t_pc t = PDone r) (c_thr st) -> ingest_files st = []).
+Proof.
+  split; [|split; [|split]].
+  - intros big sched fuel st st'. apply explore_complete.
+  - intros sched fuel st st'. apply explore_m_complete.
+  - intros sched fuel st st'. apply explore_f_complete.
+  - apply ingest_empty_when_done.
+Qed.
+
+(* ------------------------------------------------------------------ Exists agrees with Fetch *)
+Lemma file_exists_iff_fetch (H : str -> str -> str) s name d :
+  file_ok H s -> (file_exists s name d = true <-> exists bs, file_fetch s name d = Some bs).
+Proof.
+  intros [Ok1 _]. unfold file_exists, file_fetch.
+  assert (Core : (match assoc_get (f_d2p s) (d_dg d) with
+                  | Some _ => true
+                  | None => match mem_get (f_fb s) d with Some _ => true | None => false end
+                  end = true) <->
+                 exists bs, match assoc_get (f_d2p s) (d_dg d) with
+                            | Some p => assoc_get (f_files s) p
+                            | None => mem_get (f_fb s) d
+                            end = Some bs).
+  { destruct (assoc_get (f_d2p s) (d_dg d)) as [p|] eqn:G.
+    - destruct (Ok1 _ _ G) as (bs & Fb & _). split; [intros _; exists bs; exact Fb|reflexivity].
+    - destruct (mem_get (f_fb s) d) as [c|]; split; try discriminate; eauto. intros [bs X]; discriminate. }
+  destruct name as [|c n0]; [exact Core|].
+  destruct (name_in (c :: n0) (f_names s)); cbn [negb]; [exact Core|].
+  split; [discriminate|intros [bs X]; discriminate].
+Qed.
+
+Lemma exists_iff_fetch (H : str -> str -> str) :
+  (forall s d, valid_digest (d_dg d) = true ->
+     (oci_exists s d = (None, true) <-> exists bs, oci_get s (d_dg d) = Some bs)) /\
+  (forall s name d, file_reach H s ->
+     (file_exists s name d = true <-> exists bs, file_fetch s name d = Some bs)).
+Proof.
+  split.
+  - intros s d V. unfold oci_exists. rewrite V. cbn [negb].
+    destruct (oci_get s (d_dg d)) as [c|]; split; try discriminate; eauto.
+    + intros [bs X]; discriminate.
+  - intros s name d R. apply (file_exists_iff_fetch H). apply file_reach_ok. exact R.
+Qed.
+
+(* every finished race on an OCI layout, with the Writes split in any way, is an explored outcome *)
+Lemma split_writes (H : str -> str -> str) big blobs ts sched st' :
+  Forall (fun t => t_pc t = PStart /\ (length (stream (t_evs t)) <= S big)%nat) ts ->
+  crun H (mkC blobs ts) sched = Some st' ->
+  Forall (fun t => exists r, t_pc t = PDone r) (c_thr st') ->
+  exists is, crun H (mkC blobs ts) (map (fun i => (i, big)) is) = Some st' /\
+             forall fuel, (length is < fuel)%nat -> In st' (explore H fuel big (mkC blobs ts)).
+Proof.
+  intros F E Fd. apply (split_writes_explored H big (mkC blobs ts) sched st'); auto; simpl.
+  - eapply Forall_impl; [|exact F]. intros t [A _]. exact A.
+  - eapply Forall_impl; [|exact F]. intros t [A B]. apply fits_started; auto.
+Qed.
+
+(* ... with the fuel the correspondence gives the explorer *)
+Lemma split_writes_fuel (H : str -> str -> str) big blobs ts sched st' :
+  Forall (fun t => t_pc t = PStart /\ (length (stream (t_evs t)) <= S big)%nat) ts ->
+  crun H (mkC blobs ts) sched = Some st' ->
+  Forall (fun t => exists r, t_pc t = PDone r) (c_thr st') ->
+  In st' (explore H (4 * length ts + 2) big (mkC blobs ts)).
+Proof.
+  intros F E Fd. apply (split_writes_explored_fuel H big (mkC blobs ts) sched st'); auto; simpl.
+  - eapply Forall_impl; [|exact F]. intros t [A _]. exact A.
+  - eapply Forall_impl; [|exact F]. intros t [A B]. apply fits_started; auto.
 Qed.
